@@ -168,4 +168,10 @@
 #endif
 
 
+#ifdef URCU_VERIF
+extern void urcu_verif_cpu_relax(void);
+# undef caa_cpu_relax
+# define caa_cpu_relax()	urcu_verif_cpu_relax()
+#endif
+
 #endif /* _URCU_ARCH_H */
